@@ -176,6 +176,25 @@ def check(db, rep):
             else:
                 r2.ok(f.name, 'dependants reset before edge destruction', f.file + ':%d' % f.line)
 
+    # ---------------- r10
+    r10 = rep.rule('r10', 'PRUNE-AGAINST-NEW-TYPES: structure data of the dependants is pruned (PruneStructure tests elements against the current typification) after the schema change that alters those typifications, on the success path - also for an erasure, whose dependants must be collected before their edges disappear', 2)
+    changers = ('ccl::semantic::RSCore::SetExpressionFor', 'ccl::semantic::RSCore::Erase')
+    prune = lambda n: (n.get('cs') or '') in (MODEL + '::ResetDependants', VALUES + '::PruneStructure')
+    for f in db.methods_of(MODEL):
+        if not f.has_cfg():
+            continue
+        ch = call_sites(f, lambda n: n.get('callee') in changers)
+        if not ch:
+            continue
+        pr = call_sites(f, prune)
+        ok = any(pp in f.reach(cp) and pp != cp for cp, _ in ch for pp, _ in pr)
+        if ok:
+            r10.ok(f.name, 'dependants are pruned / reset after the schema change', '%s:%d' % (f.file, f.line))
+        else:
+            r10.violation(f.name, f.loc(ch[0][1]), 'the dependants are pruned only before `%s`, while their typifications are still intact, and not again afterwards: a structure over an erased base set keeps its elements (X1={1,2}, S1∈ℬ(X1)={1,2}; Erase(X1), a new empty X1: S1 is VERIFIED and still holds {1,2})' % (ch[0][1].get('txt') or '')[:40])
+    # ---------------- r11
+    r11 = rep.rule('r11', 'STRUCTURE-GUARD: in the model layer every E()/T()/B() access to a value or a typification is dominated by a test of the structure of that very object', 5)
+    rep.note('r11_access_sites', structure_guard_rule(db, r11))
     # ---------------- r3
     r3 = rep.rule('r3', 'CO-UPDATE: a mutator that changes a definition or erases a constituent resets the value and the calculated flag of the target on every success path', 2)
     val_reset = (VALUES + '::ResetFor', VALUES + '::Erase')
@@ -509,3 +528,71 @@ def _value_sources(db, rep):
         r9.violation('CheckBasicElements', '%s:%d' % (g.file, g.line), bad + ': structures keep elements their base set no longer has')
     else:
         r9.ok('CheckBasicElements', 'an element is kept exactly when its base set has the interpretant, for nominal and constant bases (%d cases)' % cases, '%s:%d' % (g.file, g.line))
+
+
+def structure_guard_rule(db, rule, prefixes=('ccl::semantic::',)):
+    """STRUCTURE-GUARD: E() / T() / B() of a structured value or typification dereference the matching alternative without a test (a
+    mismatch is a null dereference). In the model layer, where data and typification come from different sources and a definition edit can
+    change the typification under existing data, every such access must be dominated by a test of the structure of that very object:
+    IsElement/IsTuple/IsCollection, a case of switch(x.Structure()), or - for a parallel walk over data and type - a dominating test that
+    both structures are equal together with a test of the other one."""
+    from engine.shape import Keyer
+    from engine.cfgq import dominating_guards
+    WANT = {'E': ('basic', 'IsElement'), 'T': ('tuple', 'IsTuple'), 'B': ('collection', 'IsCollection')}
+    n_sites = 0
+    for f in sorted(db.functions, key=lambda x: x.name):
+        if f.body < 0 or f.rec.get('dependent') or not f.name.startswith(prefixes) or not f.has_cfg():
+            continue
+        K = Keyer(f, resolve_refs=False)
+        sites = [n for n in f.calls() if (n.get('callee') or '').startswith(('ccl::rslang::Structured<', 'ccl::object::StructuredData::', 'ccl::rslang::Typification::')) and (n.get('cs') or '').split('::')[-1] in WANT and 'obj' in n]
+        if not sites:
+            continue
+
+        def okey(n):
+            o = f.strip(f.stmts[n['obj']])
+            # optional / pointer wrappers around the same object
+            while o is not None and o['k'] in ('CXXOperatorCallExpr', 'CXXMemberCallExpr') and ((o.get('cs') or '').startswith('std::optional::') or o.get('op') in ('->', '*')):
+                o = f.strip(f.stmts[o['obj']] if 'obj' in o else f.stmts[o['args'][0]])
+            return repr(K.key(o)) if o is not None else None
+
+        def struct_obj(e):
+            """key of x when e is `x.Structure()`"""
+            e = f.strip(e)
+            if e is not None and e['k'] == 'CXXMemberCallExpr' and (e.get('cs') or '').endswith('::Structure') and 'obj' in e:
+                return okey(e)
+            return None
+        for n in sites:
+            n_sites += 1
+            acc = (n.get('cs') or '').split('::')[-1]
+            kind, pred = WANT[acc]
+            me = okey(n)
+            pos = f.position_of(n)
+            guards = dominating_guards(f, pos) if pos is not None else []
+            known = set()          # objects whose structure is known to be `kind` here
+            equal = set()          # pairs of objects with equal structure
+            for c, pol in guards:
+                for x in f.walk(c):
+                    if x['k'] == 'CXXMemberCallExpr' and (x.get('cs') or '').split('::')[-1] == pred and 'obj' in x:
+                        # polarity of this atom inside c: accept the plain and the negated-with-early-exit forms
+                        neg = any(a['k'] == 'UnaryOperator' and a.get('op') == '!' for a in f.ancestors(x) if a in list(f.walk(c)))
+                        if pol != neg:
+                            known.add(okey(x))
+                    if x['k'] == 'BinaryOperator' and x.get('op') in ('==', '!='):
+                        l, r = (struct_obj(y) for y in f.children(x))
+                        if l and r and ((x['op'] == '==') == pol):
+                            equal.add((l, r))
+                            equal.add((r, l))
+            for a in f.ancestors(n):
+                if a['k'] == 'CaseStmt' and (a.get('enumerator') or '').split('::')[-1] == kind:
+                    sw = next((b for b in f.ancestors(a) if b['k'] == 'SwitchStmt'), None)
+                    if sw is not None:
+                        so = struct_obj(f.stmts[sw['cond']])
+                        if so:
+                            known.add(so)
+            ok = me in known or any((me, y) in equal and y in known for y in list(known))
+            inst = '%s:%s@%s' % (f.name.split('::')[-1], (n.get('txt') or acc)[:24], f.loc(n).split(':')[-1])
+            if ok:
+                rule.ok(inst, 'the structure of the accessed object is tested on every path to the access', f.loc(n), nontrivial=False)
+            else:
+                rule.violation(inst, f.loc(n), '`%s` dereferences the %s alternative but no dominating test shows that this object is a %s (a test on a different object does not: after a definition edit the stored data and the new typification can have different shapes)' % ((n.get('txt') or acc)[:40], kind, kind))
+    return n_sites
